@@ -87,9 +87,9 @@ def run(ctx):
         ann = None
         if body_t[0] == "agg" and body_t[2] == "Announce":
             ann = agg_fields(dict(body_t[3]).get("0", ("unknown",)))
-        for f, want in spec["announce_header"].items():
+        for f, want in spec["Announce.header"].items():
             check_field(rep, "ANN-1", an, "header.%s" % f, hdr.get(f), want)
-        for f, want in spec["announce_body"].items():
+        for f, want in spec["Announce.body"].items():
             check_field(rep, "ANN-1", an, "body.%s" % f, (ann or {}).get(f), want)
         # the header embedded in the body is the same header
         if ann is not None and ann.get("header") is not None and df.canon(ann["header"], an) == df.canon(top.get("header"), an):
